@@ -811,8 +811,11 @@ async fn sim_main(sh: Rc<Shared>) -> Option<Violation> {
         c.gate = None;
     }
     let v = sh.violation.borrow_mut().take();
+    let dir = sim.dir.clone();
     drop(_enter);
     drop(sim);
+    // socket files of this run (listener paths are unlinked by the server, client paths are not)
+    let _ = std::fs::remove_dir_all(&dir);
     v
 }
 
